@@ -221,6 +221,37 @@ func runC04(c *Ctx) {
 			return cut
 		}
 		c.mustFollow(fn, "sync peer lost", starts, callTo(bmM("startSync")), "b.startSync(peers)", errCut(fn, find(fn, callTo(tip)), 2), 1)
+		// every departure is compared with the sync peer (no early way out for
+		// some class of peers: the reorg path makes any peer the sync peer), and
+		// a match clears it
+		isSync := func(v ssa.Value) bool {
+			return valIsCallTo(bmM("SyncPeer"))(v) || loadsField(bm("syncPeer"))(v)
+		}
+		var spParam func(ssa.Value) bool = func(ssa.Value) bool { return false }
+		if len(fn.Params) == 3 {
+			spParam = paramOrSpill(fn.Params[2])
+		}
+		isGone := func(v ssa.Value) bool { return spParam(v) || isParam(fn, 2)(v) }
+		cmp := find(fn, binops(eqOps, isSync, isGone))
+		noSync := equalIs("b.SyncPeer() vs nil", find(fn, binops(eqOps, isSync, ir.IsNil)), true).cut()
+		isCmp := func(in ssa.Instruction) bool {
+			for _, x := range cmp {
+				if x == in {
+					return true
+				}
+			}
+			return false
+		}
+		c.mustFollow(fn, "a peer departed", []start{atEntry(fn)}, isCmp, "b.SyncPeer() == sp", noSync, 1)
+		gm := equalIs("b.SyncPeer() vs the departing peer", cmp, true)
+		c.mustFollow(fn, "the departing peer is the sync peer", c.successEdges(gm), func(in ssa.Instruction) bool {
+			for _, x := range clears {
+				if x == in {
+					return true
+				}
+			}
+			return false
+		}, "b.syncPeer = nil", nil, 1)
 		// handleNewPeerMsg
 		fn = c.fn("(*neutrino.blockManager).handleNewPeerMsg")
 		g := boolIs("isSyncCandidate(sp)", find(fn, callTo(bmM("isSyncCandidate"))), 0, true)
